@@ -611,6 +611,10 @@ def lean_ty(t):
         return "Bool"
     if t == "Section":
         return "Section"
+    if t == "rr":
+        return "Bytes"
+    if t == "Option<cachedq>":
+        return "(Option (Bytes × Nat × Nat))"
     if t in ("&[u8]", "&mut[u8]", "Vec<u8>", "&Vec<u8>", "&mutVec<u8>", "bytes"):
         return "Bytes"
     if t == "()":
@@ -633,6 +637,8 @@ def norm_ty(t):
         return "bytes"
     if t == "Option<&[u8]>":
         return "Option<bytes>"
+    if t in ("r#gen::RR", "gen::RR", "RR"):
+        return "rr"
     m = re.fullmatch(r"Result<(.*),Error>", t)
     if m:
         return norm_ty(m.group(1))
@@ -758,6 +764,9 @@ class Translator:
                 return
             if e and e[0] == "mcall" and e[1] == ("var", "self"):
                 fn["calls"].add(e[2])
+                if e[2] in EXT_METHODS:
+                    fn["reads"] |= set(EXT_METHODS[e[2]]["reads"])
+                    fn["writes"] |= set(EXT_METHODS[e[2]]["writes"])
             if e and e[0] == "call" and e[1][0] == "path" and e[1][1][0] == "Self":
                 fn["calls"].add(e[1][1][1])
             if e and e[0] == "index":
@@ -848,6 +857,8 @@ class Translator:
         if f is not None:
             v = env["self." + f]
             return [], v.lean, v.ty
+        if k == "field" and e[2] == "packet" and e[1][0] == "var" and e[1][1] in env and env[e[1][1]].ty == "rr":
+            return [], env[e[1][1]].lean, "bytes"
         if k == "cast":
             pre, t, ty = self.expr(e[1], env, cx)
             to = e[2]
@@ -1093,6 +1104,12 @@ class Translator:
         if recv == ("var", "self"):
             if name in self.fns:
                 return self.call_fn(self.fns[name], args, env, cx)
+            if name in EXT_METHODS:
+                m = EXT_METHODS[name]
+                ts = [env["self." + f].lean for f in m["reads"]]
+                names = [env["self." + f].lean for f in m["writes"]]
+                pat = names[0] if len(names) == 1 else "(" + ", ".join(names) + ")"
+                return [("bind", pat, "%s %s" % (m["lean"], " ".join(ts)))], "()", "()"
             if name in EXTERNAL:
                 return self.call_external(name, args, env, cx)
             raise Unsupported("method self.%s" % name)
@@ -1168,6 +1185,15 @@ class Translator:
             env2[n] = Var(n, ty)
             pb, tb, tyb = self.expr(("cast", ("var", n), args[0][1][0]), env2, cx)
             return pre + [("let", n, t)] + pb, tb, tyb
+        if name == "map" and args and args[0][0] == "closure" and len(args[0][1]) == 1 and args[0][1][0][0] == "pid":
+            pre0, t0, ty0 = self.expr(recv, env, cx)
+            if ty0.startswith("Option<"):
+                c = args[0][1][0][1]
+                env2, lean = cx.declare(env, c, ty0[7:-1])
+                pb, tb, tyb = self.expr(args[0][2], env2, cx)
+                if pb:
+                    raise Unsupported("fallible closure in Option::map")
+                return pre0, "(%s.map (fun %s => %s))" % (t0, lean, tb), "Option<%s>" % tyb
         if name == "map" and args and args[0][0] == "closure":
             # on a `Result`: the receiver is already bound; apply the closure to the value
             pre, t, ty = self.expr(recv, env, cx)
@@ -1204,7 +1230,7 @@ class Translator:
             inner = init
             while inner[0] in ("unary", "paren") and (inner[0] == "paren" or inner[1] in ("&", "&mut")):
                 inner = inner[2] if inner[0] == "unary" else inner[1]
-            fld = self.self_field_of(inner) if inner is not init else None
+            fld = self.self_field_of(inner) if (inner is not init or (init[0] == "mcall" and init[2].endswith("_mut"))) else None
             if fld is not None:
                 env2 = dict(env)
                 env2[name] = env["self." + fld]
@@ -1234,6 +1260,15 @@ class Translator:
     def env_after(self, pre, env):
         return env
 
+    def vec_target(self, e, env):
+        """the variable a Vec method call acts on: a local / an alias, or the field behind `self.packet_mut()`"""
+        f = self.self_field_of(e)
+        if f is not None:
+            return env["self." + f] if env["self." + f].ty == "bytes" else None
+        if e[0] == "var" and e[1] in env and env[e[1]].ty == "bytes":
+            return env[e[1]]
+        return None
+
     def is_value_if(self, e):
         """`if c { v1 } else { v2 }` whose branches are plain values (no statements, no control flow)"""
         if e[0] != "if" or e[3] is None:
@@ -1255,7 +1290,7 @@ class Translator:
     def is_ctrl(self, e):
         if e[0] in ("cast", "paren") and self.is_ctrl(e[1]):
             return True
-        if e[0] == "mcall" and e[2] in ("extend", "extend_from_slice", "push", "for_each"):
+        if e[0] == "mcall" and e[2] in ("extend", "extend_from_slice", "push", "for_each", "reserve", "resize", "copy_within", "copy_from_slice"):
             return True
         return e[0] in ("if", "match", "loop", "while", "for", "block", "return", "break", "continue", "assign") or \
             (e[0] == "macro") or \
@@ -1314,6 +1349,34 @@ class Translator:
             return self.for_(e, env, cx, k)
         if kind == "assign":
             return self.assign(e, env, cx, k)
+        if kind == "mcall" and e[2] in ("reserve", "resize", "copy_within", "extend_from_slice", "extend", "push") and self.vec_target(e[1], env) is not None \
+                and (e[2] in ("reserve", "resize", "copy_within") or self.self_field_of(e[1]) is not None):
+            v = self.vec_target(e[1], env)
+            if e[2] == "reserve":
+                pre, t, _ = self.expr(e[3][0], env, cx, "usize")
+                return wrap(pre, k(env, "()"))
+            if e[2] == "resize":
+                pn, tn, _ = self.expr(e[3][0], env, cx, "usize")
+                pv, tv, _ = self.expr(e[3][1], env, cx, "u8")
+                return wrap(pn + pv, "(let %s := vecResize %s %s %s;\n%s)" % (v.lean, v.lean, tn, tv, k(env, "()")))
+            if e[2] == "copy_within":
+                rng = e[3][0]
+                if rng[0] != "range" or rng[1] is None or rng[2] is None:
+                    raise Unsupported("copy_within without a bounded range")
+                pa, ta, _ = self.expr(rng[1], env, cx, "usize")
+                pb, tb, _ = self.expr(rng[2], env, cx, "usize")
+                pd, td, _ = self.expr(e[3][1], env, cx, "usize")
+                return wrap(pa + pb + pd, "(copyWithin %s %s %s %s >>= fun %s =>\n%s)" % (v.lean, ta, tb, td, v.lean, k(env, "()")))
+            pre, t, ty = self.expr(e[3][0], env, cx, "u8" if e[2] == "push" else None)
+            add = "[UInt8.ofNat %s]" % t if e[2] == "push" else t
+            return wrap(pre, "(let %s := %s ++ %s;\n%s)" % (v.lean, v.lean, add, k(env, "()")))
+        if kind == "mcall" and e[2] == "copy_from_slice" and e[1][0] == "index" and e[1][2][0] == "range" \
+                and e[1][2][1] is not None and e[1][2][2] is not None and self.vec_target(e[1][1], env) is not None:
+            v = self.vec_target(e[1][1], env)
+            pa, ta, _ = self.expr(e[1][2][1], env, cx, "usize")
+            pb, tb, _ = self.expr(e[1][2][2], env, cx, "usize")
+            ps, ts, _ = self.expr(e[3][0], env, cx)
+            return wrap(pa + pb + ps, "(copyFromSlice %s %s %s %s >>= fun %s =>\n%s)" % (v.lean, ta, tb, ts, v.lean, k(env, "()")))
         if kind == "mcall" and e[2] in ("extend", "extend_from_slice", "push") and e[1][0] == "var" \
                 and e[1][1] in env and env[e[1][1]].ty == "bytes":
             v = env[e[1][1]]
@@ -1422,6 +1485,8 @@ class Translator:
             return wrap(pi + pv, "(writeAt %s %s [UInt8.ofNat %s] >>= fun %s =>\n%s)" % (bvar.lean, ti, tv, bvar.lean, k(env, "()")))
         else:
             raise Unsupported("assignment target")
+        if op == "=" and fld == "packet" and rhs[0] == "call" and rhs[1] == ("var", "Some"):
+            rhs = rhs[2][0]
         if op == "=":
             pre, t, ty = self.expr(rhs, env, cx, var.ty if var.ty != "int" else None)
         else:
@@ -1503,10 +1568,13 @@ class Translator:
                     acc.append("self." + f)
                 elif tgt[0] == "var":
                     acc.append(tgt[1])
-            if e and e[0] == "mcall" and e[2] in ("extend", "extend_from_slice", "push") and e[1][0] == "var":
+            if e and e[0] == "mcall" and e[2] in ("extend", "extend_from_slice", "push", "resize", "copy_within") and e[1][0] == "var":
                 acc.append(e[1][1])
             if e and e[0] in ("mcall",) and e[1] == ("var", "self") and e[2] in self.fns:
                 for f in self.fields(self.fns[e[2]], "writes"):
+                    acc.append("self." + f)
+            if e and e[0] == "mcall" and e[1] == ("var", "self") and e[2] in EXT_METHODS:
+                for f in EXT_METHODS[e[2]]["writes"]:
                     acc.append("self." + f)
             if e and e[0] == "call" and e[1][0] == "path" and e[1][1][:2] == ["mem", "replace"]:
                 tgt = e[2][0]
@@ -1731,6 +1799,8 @@ class Translator:
 EXTERNAL = {}
 # functions of another translated group, by Rust type name: name -> parsed fn (with its Lean name qualified)
 XGROUP = {}
+# methods of `self` that are not translated but modelled by hand: name -> {lean, reads, writes}
+EXT_METHODS = {}
 
 
 def indent(text):
@@ -1791,14 +1861,25 @@ GROUPS = {
                   sig=(["&[u8]", "&[u8]"], "bool"))],
     ),
     "Counts": dict(
-        self_fields={"packet": ("packet", "bytes"), "offset_answers": ("offset_answers", "Option<usize>"),
+        self_fields={"packet": ("packet", "bytes"), "offset_question": ("offset_question", "Option<usize>"),
+                     "offset_answers": ("offset_answers", "Option<usize>"),
                      "offset_nameservers": ("offset_nameservers", "Option<usize>"),
-                     "offset_additional": ("offset_additional", "Option<usize>")},
-        imports=["DnsModel.Sector"],
+                     "offset_additional": ("offset_additional", "Option<usize>"),
+                     "offset_edns": ("offset_edns", "Option<usize>"), "edns_count": ("edns_count", "u16"),
+                     "ext_rcode": ("ext_rcode", "Option<u8>"), "edns_version": ("edns_version", "Option<u8>"),
+                     "ext_flags": ("ext_flags", "Option<u16>"), "maybe_compressed": ("maybe_compressed", "bool"),
+                     "max_payload": ("max_payload", "usize"), "cached": ("cached", "Option<cachedq>")},
+        imports=["DnsModel.TrRecompute"],
+        externals={"uncompress": ("uncompress", "bytes")},
+        ext_methods={"recompute": dict(lean="recomputeFields",
+                                       reads=["packet", "offset_question", "offset_answers", "offset_nameservers", "offset_additional",
+                                              "offset_edns", "edns_count", "ext_rcode", "edns_version", "ext_flags", "maybe_compressed", "max_payload", "cached"],
+                                       writes=["packet", "offset_question", "offset_answers", "offset_nameservers", "offset_additional",
+                                               "offset_edns", "maybe_compressed", "cached"])},
         fns=[dict(file="src/dns_sector.rs", impl="DNSSector", fn=f) for f in
              ["qdcount", "ancount", "nscount", "arcount", "set_qdcount", "set_ancount", "set_nscount", "set_arcount"]] +
             [dict(file="src/parsed_packet.rs", impl="ParsedPacket", fn=f) for f in
-             ["rrcount_inc", "rrcount_dec", "insertion_offset"]],
+             ["rrcount_inc", "rrcount_dec", "insertion_offset", "insert_rr"]],
     ),
     "Rename": dict(
         self_fields={},
@@ -1854,6 +1935,8 @@ def translate_group(gname):
     tr = Translator(gname, g["self_fields"])
     EXTERNAL.clear()
     EXTERNAL.update(g.get("externals", {}))
+    EXT_METHODS.clear()
+    EXT_METHODS.update(g.get("ext_methods", {}))
     for cfg in g["fns"]:
         tr.add(cfg)
     tr.analyse()
